@@ -16,6 +16,7 @@ import itertools
 
 from pyvc import ir, engine, smt, libmodel
 from pyvc.report import Ob
+from pyvc import report as report_mod
 from pyvc.values import Sym, Lane, Arr2, State
 from . import gm, uni, vine
 
@@ -36,7 +37,18 @@ FUNCS = [vine.VINE + '.fit', vine.VINE + '.train_vine', TREE + 'Tree.fit', TREE 
          TREE + 'Edge.get_conditional_uni', TREE + 'Edge.get_child_edge']
 
 
+_NATIVE_CACHE = {}
+
+
 def native_search(vine_type, d, trunc, seeds, rows=80, refit=False):
+    """memoised (the same native search serves every obligation of one (type, d, truncation) group)"""
+    key = (vine_type, d, trunc, tuple(seeds), rows, refit)
+    if key not in _NATIVE_CACHE:
+        _NATIVE_CACHE[key] = _native_search(vine_type, d, trunc, seeds, rows, refit)
+    return _NATIVE_CACHE[key]
+
+
+def _native_search(vine_type, d, trunc, seeds, rows=80, refit=False):
     """fit the real VineCopula on random tables (ties injected in every second one) and evaluate the same predicates"""
     import warnings
     import numpy as np
@@ -52,6 +64,7 @@ def native_search(vine_type, d, trunc, seeds, rows=80, refit=False):
             X = np.round(X, 1)                      # ties
         X = pd.DataFrame(X, columns=vine.LABELS[:d])
         try:
+          with report_mod.time_limit(60):
             v = VineCopula(vine_type)
             if refit:
                 v.fit(pd.DataFrame(rs.normal(size=(50, 3)) @ rs.normal(size=(3, 3)), columns=['p', 'q', 'r']), truncated=1)
@@ -59,6 +72,9 @@ def native_search(vine_type, d, trunc, seeds, rows=80, refit=False):
                 v.fit(X)
             else:
                 v.fit(X, truncated=trunc)
+        except report_mod.NativeTimeout:
+            found.append({'seed': seed, 'violations': [('fit_raises', 'fit did not return within 60 s')]})
+            break
         except Exception as e:                      # noqa
             found.append({'seed': seed, 'violations': [('fit_raises', '%s: %s' % (type(e).__name__, str(e)[:120]))]})
             continue
@@ -173,7 +189,9 @@ def build(chk):
                 n_trees = len(S)
                 depth_cases.add(n_trees)
                 # -- number of trees = max(1, min(d-1, t)) -----------------------------------------------------------
-                chk.add(Ob('C16.%s.tree_count.%d' % (tag, k), r.pc,
+                # only the path-condition conjuncts about t matter for this integer goal (the others do not mention t, and
+                # the path is feasible): keeps the query free of the uninterpreted tau terms
+                chk.add(Ob('C16.%s.tree_count.%d' % (tag, k), [p_ for p_ in r.pc if T in ir.free_vars(p_)],
                            ir.eq(n_trees, ir.max_(1, ir.min_(d - 1, T))), function=vine.VINE + '.train_vine',
                            replay=struct_replay(vt, d, None, 'tree_count', refit=bool(hist)),
                            clause='the model holds min(d-1, t) trees, at least one [%d trees]' % n_trees))
@@ -255,7 +273,7 @@ def build(chk):
             if k == 0 and not chk.undecided:
                 chk.engine_error('C16.%s: no returning path' % tag)
             # every truncation case must have been reached (vacuity guard on the symbolic t)
-            if k and depth_cases != set(range(1, max(2, d))):
+            if k and not set(range(1, max(2, d))) <= depth_cases and not chk.undecided:
                 chk.engine_error('C16.%s: tree counts reached %r, expected 1..%d' % (tag, sorted(depth_cases), max(1, d - 1)))
     build_helpers(chk)
     crosscheck_builders(chk)
@@ -546,12 +564,15 @@ def crosscheck_builders(chk):
                 T.Tree.prepare_next_tree = prep
                 native = []
                 try:
-                    prev = np.full((3, d), 0.5)
-                    for k in range(min(d - 1, 3)):
-                        t = T.get_tree(vt)
-                        t.fit(k, d - k, np.array(taus[k]), prev)
-                        native.append([(int(e.L), int(e.R), tuple(sorted(int(x) for x in e.D))) for e in t.edges])
-                        prev = t
+                    with report_mod.time_limit(30):
+                        prev = np.full((3, d), 0.5)
+                        for k in range(min(d - 1, 3)):
+                            t = T.get_tree(vt)
+                            t.fit(k, d - k, np.array(taus[k]), prev)
+                            native.append([(int(e.L), int(e.R), tuple(sorted(int(x) for x in e.D))) for e in t.edges])
+                            prev = t
+                except report_mod.NativeTimeout:
+                    native = 'did not return within 30 s'
                 except Exception as e:          # noqa
                     native = 'raised %s' % type(e).__name__
                 finally:
